@@ -353,7 +353,11 @@ Proof.
       exact Hl.
     - apply ok_upd.
       + intros n Hn. generalize (sunion (others n) (readonly n)); intros l. revert n Hn.
-        induction l as [|a l IH]; intros n Hn; cbn; [exact Hn|]. apply IH. exact Hn.
+        induction l as [|a l IH]; intros n Hn; cbn [fold_left]; [exact Hn|]. apply IH.
+        assert (node_ok (n <| sr := (sr n) <| trans := adel a (trans (sr n)) |> |>)) as Hs.
+        { apply node_ok_sr; [|exact Hn]. destruct Hn as (_ & _ & _ & _ & _ & (Y1 & Y2 & Y3)).
+          split; [exact Y1|]. split; [apply Forall_adel; exact Y2 | exact Y3]. }
+        exact Hs.
       + apply ok_upd; [intros n Hn; exact Hn|]. apply ok_set_role. apply ok_upd; [intros n Hn; exact Hn | exact H]. }
   unfold andthen.
   match goal with |- S_ok (if ok ?Y then _ else _) => assert (S_ok Y) as H1 end.
